@@ -161,6 +161,7 @@ func (e *Engine) addMod(ctx *EvalCtx, ms *ModSet, ex Expr) (err error) {
 				return fmt.Errorf("modifies: mapof() needs a map")
 			}
 			key := "map:" + typeKey(mt)
+			_ = ctx.cur.mapState(v.V.(*Term), mt) // creates the map heaps of this type if they do not exist yet
 			for _, sfx := range []string{".dom", ".card"} {
 				ms.HeapRefs[key+sfx] = append(ms.HeapRefs[key+sfx], v.V.(*Term))
 			}
@@ -734,7 +735,8 @@ func sigNames(sig *types.Signature, fn *ssa.Function) ([]string, []types.Type) {
 // unknownCall: callee without contract.
 func (e *Engine) unknownCall(p *Path, fr *Frame, what string, sig *types.Signature, dst ssa.Value, pos token.Pos) []*Path {
 	if e.curCt == nil || !e.curCt.Havoc {
-		e.failObl("call", what, "call to a function without contract (add a contract, mark it inline, or list it as trusted)")
+		// an error only if the call is reachable: the obligation is "this point is unreachable"
+		e.oblige(p, "call", what, pos, False, "call to a function without contract (add a contract, mark it inline, or list it as trusted) - or show that the call cannot be reached")
 		p.done = true
 		return nil
 	}
